@@ -104,6 +104,17 @@ def compare_values(spec, net, present):
 
 
 # ------------------------------------------------------------------ the model side, inside Coq
+def coq_eval(tag, prelude, items, timeout=900):
+    """common.coq_eval; the dependency build is retried when it fails for a reason outside this property (another
+    process adding/removing sources in the shared tree while make computes dependencies)"""
+    for attempt in range(3):
+        try:
+            return common.coq_eval(tag, prelude, items, timeout=timeout)
+        except RuntimeError as ex:
+            if 'cannot build the libraries' not in str(ex) or 'C04' in str(ex) or attempt == 2: raise
+            time.sleep(5)
+
+
 def nat_tbl(tbl):
     return '[' + '; '.join('[' + '; '.join(str(x) for x in row) + ']' for row in tbl) + ']'
 
@@ -113,7 +124,7 @@ def model_sort(tag, tbls):
     out = []
     for a in range(0, len(tbls), 600):
         chunk = tbls[a:a + 600]
-        r = common.coq_eval('%s_%d' % (tag, a // 600), SORT_PRELUDE,
+        r = coq_eval('%s_%d' % (tag, a // 600), SORT_PRELUDE,
                             [('all', 'map topologicalSort [' + ';\n '.join(nat_tbl(t) for t in chunk) + ']')], timeout=900)
         for v in r['all']:
             out.append(None if v is None else v[1])
@@ -132,7 +143,7 @@ def model_kernel(tag, dumps):
         items.append(('r%d' % i, '(first_diff %s (run_trace d%d %s %s), forallb (settledb d%d) %s, orderedb (combs d%d) && nodupb (flat_map c_out (combs d%d)), %s)' % (
             exp, i, st, netlist.steps_term(steps), i, exp if single else '[' + '; '.join(common.zlist(v) for v in rows) + ']', i, i,
             ('list_eqb (vals (init d%d d%d_st0)) %s' % (i, i, common.zlist(start_vals))) if single else 'true')))
-    return common.coq_eval(tag, '\n'.join(body), items, timeout=900)
+    return coq_eval(tag, '\n'.join(body), items, timeout=900)
 
 
 # ------------------------------------------------------------------ sweeps
